@@ -94,6 +94,9 @@ UClasses ==
    TDE  |-> Cls("typeddict", << F("e", TEnum("ES")), FD("t", TTuple(<<TInt, TStr>>), VUndef) >>),
    TDO  |-> Cls("typeddict", << FD("a", TInt, VUndef), FD("b", TColl("list", TInt), VUndef) >>),
    CAT  |-> Cls("dataclass", << F("a", TInt), [FD("knd", TLit(<<DStr("cat")>>), DStr("cat")) EXCEPT !.alias = "type"] >>),
+   \* a TypedDict declaring the discriminator as a Literal key: the alternative of a discriminated union MIXING
+   \* TypedDict and class alternatives (a TypedDict value is a plain dict, a class instance is told by its class)
+   TDK  |-> Cls("typeddict", << F("type", TLit(<<DStr("tdk")>>)), F("n", TInt) >>),
    DOG  |-> Cls("dataclass", << [F("knd", TLit(<<DStr("dog"), DStr("d")>>)) EXCEPT !.alias = "type"], FD("b", TStr, DStr("")) >>),
    \* serialization-side features
    SD   |-> Cls("dataclass", << F("a", TInt), [FD("b", TInt, DInt(1)) EXCEPT !.skip_default = TRUE],
@@ -219,7 +222,8 @@ DUnionTypes == { TDUnion(<<TObj("P1"), TObj("P2")>>, "kind", << <<"P1">>, <<"P2"
                  TDUnion(<<TObj("P1"), TObj("P2")>>, "kind", << <<"P1">>, <<"x">> >>, "partial"),
                  TDUnion(<<TObj("P1"), TObj("PA"), TObj("FL")>>, "type", << <<"P1">>, <<"PA">>, <<"FL">> >>, "default"),
                  \* the discriminator is a declared (aliased) Literal field of the alternatives
-                 TDUnion(<<TObj("CAT"), TObj("DOG"), TObj("P1")>>, "type", << <<"cat">>, <<"dog", "d">>, <<"P1">> >>, "default") }
+                 TDUnion(<<TObj("CAT"), TObj("DOG"), TObj("P1")>>, "type", << <<"cat">>, <<"dog", "d">>, <<"P1">> >>, "default"),
+                 TDUnion(<<TObj("TDK"), TObj("P1"), TObj("CAT")>>, "type", << <<"tdk">>, <<"P1">>, <<"cat">> >>, "default") }
 
 \* typing itself collapses duplicate alternatives (Union[str, str] is str): not distinct types
 RECURSIVE WF(_)
